@@ -38,6 +38,7 @@
 EXTENDS Naturals, Integers, Sequences, FiniteSets, TLC
 
 CONSTANTS Atoms,          \* [1..N -> [ins, outs, fee, shift, lock, nrd]]
+          DupCommits, DupCreators, DupSpenders,   \* derived from Atoms (see the ASSUME below)
           Subs,           \* submittable transactions: a set of sets of atom ids
           Trunk,          \* head height at start; coinbases 0..Trunk are unspent
           Maturity,       \* coinbase maturity (3 under AutomatedTesting)
@@ -85,10 +86,15 @@ Created(P) == UNION {Atoms[a].outs : a \in P}
 \*   +1 a new output (must not be unspent on the chain already), -1 a spend of a chain output, 0 cut through,
 \*   anything else is a duplicate output / a double spend (transaction::cut_through refuses it)
 Net(P, c) == Cardinality({a \in P : c \in Atoms[a].outs}) - Cardinality({a \in P : c \in Atoms[a].ins})
-\* the commitments of the universe that more than one atom creates (a constant: evaluated once). Sets of atoms that do
-\* not touch them are handled with plain set algebra, which is the same thing there and much faster for TLC.
-DupCommits == {c \in UNION {Atoms[a].outs : a \in DOMAIN Atoms} : Cardinality({a \in DOMAIN Atoms : c \in Atoms[a].outs}) > 1}
-Plain(P) == (Spent(P) \cup Created(P)) \cap DupCommits = {}
+\* DupCommits: the commitments of the universe that more than one atom creates, with their creators and spenders.
+\* Sets of atoms with at most one creator and one spender of each are handled with plain set algebra, which is the same
+\* thing there and much faster for TLC. (Given as constants because TLC re-evaluates a defined constant expression at
+\* every use - measured: 20x slower simulation; the ASSUME ties them to the universe.)
+ASSUME /\ DupCommits = {c \in UNION {Atoms[a].outs : a \in DOMAIN Atoms} : Cardinality({a \in DOMAIN Atoms : c \in Atoms[a].outs}) > 1}
+       /\ DupCreators = [c \in DupCommits |-> {a \in DOMAIN Atoms : c \in Atoms[a].outs}]
+       /\ DupSpenders = [c \in DupCommits |-> {a \in DOMAIN Atoms : c \in Atoms[a].ins}]
+\* at most one creator and one spender of every such commitment inside P: set algebra and counting agree
+Plain(P) == \A c \in DupCommits : Cardinality(P \cap DupCreators[c]) <= 1 /\ Cardinality(P \cap DupSpenders[c]) <= 1
 \* transaction::aggregate : cut-through of everything created and spent inside P
 TxOf(P) == IF Plain(P) THEN [k |-> P, ins |-> Spent(P) \ Created(P), outs |-> Created(P) \ Spent(P)]
            ELSE LET cs == Spent(P) \cup Created(P)
@@ -123,9 +129,13 @@ IsCoinbase(c) == c < 100
 MatureAt(c, nextHeight) == ~IsCoinbase(c) \/ c + Maturity <= nextHeight
 
 \* Chain::validate_tx of the aggregate of the atoms P (plus Transaction::validate of it)
-JointOK(P, u) == /\ Consistent(P)
-                 /\ TxOf(P).ins \subseteq u
-                 /\ TxOf(P).outs \cap u = {}
+JointOK(P, u) == IF Plain(P) THEN /\ Consistent(P)
+                                  /\ (Spent(P) \ Created(P)) \subseteq u
+                                  /\ (Created(P) \ Spent(P)) \cap u = {}
+                 ELSE \A c \in Spent(P) \cup Created(P) :
+                        LET n == Net(P, c) IN /\ n \in {-1, 0, 1}
+                                              /\ (n = 1 => c \notin u)
+                                              /\ (n = -1 => c \in u)
 Disjoint(s) == \A i, j \in 1..Len(s) : i < j => s[i] \cap s[j] = {}
 JointSeq(s, u) == Disjoint(s) /\ JointOK(AtomsIn(s), u)
 
